@@ -353,8 +353,8 @@ Print Assumptions C10_replica_non_scalar_is_error.
 (* Resource level: a resource that no target selector wants — its label/annotation selectors
    reject it, or none of its ids is selected, or one of its ids is rejected — is left untouched. *)
 Theorem C10_replacement_exact :
-  forall parse enc nonstr lsel fuel (tss : list target_selector) (vs : vstate) (rs rs' : list node),
-    apply_replacement parse enc nonstr lsel fuel vs tss rs = Ok rs' ->
+  forall parse enc nonstr decodes lsel fuel (tss : list target_selector) (vs : vstate) (rs rs' : list node),
+    apply_replacement parse enc nonstr decodes lsel fuel vs tss rs = Ok rs' ->
     List.length rs' = List.length rs /\
     forall i n, nth_error rs i = Some n ->
       (forall ts sel, In ts tss -> ts_select ts = Some sel -> ~ wants lsel ts sel n) ->
@@ -377,24 +377,24 @@ Print Assumptions C10_replacement_rejected_untouched.
    previous paths left it).  Hypothesis: no field path has an empty part (a.."b": Go's Get("") then
    overwrites the node it stands on). *)
 Theorem C10_replacement_fields_exact :
-  forall parse enc nonstr fuel (fps : list string) (opts : option field_options) (live : option addr)
+  forall parse enc nonstr decodes fuel (fps : list string) (opts : option field_options) (live : option addr)
          (value n n' : node) (st : node * option addr),
     paths_no_empty fps = true ->
-    copy_value_to_target parse enc nonstr fuel opts live value fps n = Ok (n', st) ->
+    copy_value_to_target parse enc nonstr decodes fuel opts live value fps n = Ok (n', st) ->
     forall a x, get_at a n = Some x ->
-      (forall h, In h (copy_hits parse enc nonstr fuel opts live value fps n) -> comparable a h = false) ->
+      (forall h, In h (copy_hits parse enc nonstr decodes fuel opts live value fps n) -> comparable a h = false) ->
       get_at a n' = Some x.
 Proof. exact copy_value_keeps. Qed.
 Print Assumptions C10_replacement_fields_exact.
 
 (* ... the same for one target selector applied to one resource of the list (selected or not) *)
 Theorem C10_replacement_target_fields_exact :
-  forall parse enc nonstr fuel lsel (vs : vstate) (ts : target_selector) (sel : selector) (i : nat)
+  forall parse enc nonstr decodes fuel lsel (vs : vstate) (ts : target_selector) (sel : selector) (i : nat)
          (n n' : node) (vs' : vstate),
     paths_no_empty (target_field_paths ts) = true ->
-    apply_target_to_node parse enc nonstr lsel fuel vs ts sel i n = Ok (n', vs') ->
+    apply_target_to_node parse enc nonstr decodes lsel fuel vs ts sel i n = Ok (n', vs') ->
     forall a x, get_at a n = Some x ->
-      (forall h, In h (node_hits parse enc nonstr fuel vs ts i n) -> comparable a h = false) ->
+      (forall h, In h (node_hits parse enc nonstr decodes fuel vs ts i n) -> comparable a h = false) ->
       get_at a n' = Some x.
 Proof. exact apply_node_keeps. Qed.
 Print Assumptions C10_replacement_target_fields_exact.
@@ -409,32 +409,62 @@ Print Assumptions C10_match_hits_disjoint.
 (* EVERY field the matcher returned receives set_field_value of the value (for a private copy of the
    value, i.e. not the live source node) *)
 Theorem C10_replacement_written_all :
-  forall parse enc nonstr (create : option kind) fuel (path : list string)
+  forall parse enc nonstr decodes (create : option kind) fuel (path : list string)
          (opts : option field_options) (value n d : node) (hits : list hit) (n' : node) (st : node * option addr),
     pm parse enc nonstr create fuel path n = Ok (d, hits) ->
-    write_hits opts None value hits d = Ok (n', st) ->
+    write_hits decodes opts None value hits d = Ok (n', st) ->
     forall h x, In (HAt h) hits -> get_at h d = Some x ->
-      exists x', set_field_value opts value x = Ok x' /\ get_at h n' = Some x'.
+      exists x', set_field_value decodes opts value x = Ok x' /\ get_at h n' = Some x'.
 Proof. exact matched_fields_written. Qed.
 Print Assumptions C10_replacement_written_all.
 
 (* the value written at a (single) returned field is what setFieldValue makes of the old node ... *)
 Theorem C10_replacement_written_value :
-  forall parse enc nonstr fuel (opts : option field_options) (live : option addr) (value : node) (fp : string)
+  forall parse enc nonstr decodes fuel (opts : option field_options) (live : option addr) (value : node) (fp : string)
          (n n' : node) (st : node * option addr) (h : addr) (x : node),
     create_kind opts value = None ->
-    copy_value_to_target parse enc nonstr fuel opts live value [fp] n = Ok (n', st) ->
+    copy_value_to_target parse enc nonstr decodes fuel opts live value [fp] n = Ok (n', st) ->
     pm parse enc nonstr None fuel (smarter_path_splitter "."%char fp) n = Ok (n, [HAt h]) ->
     get_at h n = Some x ->
-    exists x', set_field_value opts (reread live value n) x = Ok x' /\ get_at h n' = Some x'.
+    exists x', set_field_value decodes opts (reread live value n) x = Ok x' /\ get_at h n' = Some x'.
 Proof. exact copy_value_written. Qed.
 Print Assumptions C10_replacement_written_value.
 
-(* ... which, without a delimiter, is the source text verbatim (the field keeps its tag and style) *)
-Theorem C10_replacement_verbatim : forall value t s old,
-  set_field_value None value (Scalar t s old) = Ok (Scalar t s (node_value value)).
+(* ... which, without a delimiter, is the source text verbatim; the field keeps its style, and its tag
+   whenever go-yaml can decode the text under that tag — otherwise it becomes a string (repair of
+   C10/replacement-keeps-target-tag-not-encodable; [decodes] is Node.Decode, an oracle like [enc]) *)
+Theorem C10_replacement_verbatim : forall (decodes : tag -> string -> bool) value t s old,
+  set_field_value decodes None value (Scalar t s old) =
+  Ok (Scalar (if decodes t (node_value value) then t else TStr) s (node_value value)).
 Proof. exact set_field_value_verbatim. Qed.
 Print Assumptions C10_replacement_verbatim.
+
+(* with a delimiter: the spliced text, same tag rule *)
+Theorem C10_replacement_spliced : forall (decodes : tag -> string -> bool) o value t s old,
+  fo_delimiter o <> "" ->
+  set_field_value decodes (Some o) value (Scalar t s old) =
+  Ok (Scalar (if decodes t (splice o old (get_value value)) then t else TStr) s (splice o old (get_value value))).
+Proof. exact set_field_value_spliced. Qed.
+Print Assumptions C10_replacement_spliced.
+
+(* what a replacement writes into a scalar field is a well-formed value: it can be decoded (under the
+   kept tag or as a string) — provided strings always decode *)
+Theorem C10_replacement_written_decodable : forall (decodes : tag -> string -> bool) opts value t s old x',
+  (forall x, decodes TStr x = true) ->
+  set_field_value decodes opts value (Scalar t s old) = Ok x' ->
+  exists t' text, x' = Scalar t' s text /\ decodes t' text = true.
+Proof. exact set_field_value_decodable. Qed.
+Print Assumptions C10_replacement_written_decodable.
+
+(* regression witness of the finding: `x` written over `replicas: null` and over `replicas: 3` gives the
+   string x (it used to stay tagged !!null / !!int, which ResMap.AsYaml cannot encode); 5 over 3 stays an int *)
+Theorem C10_replacement_kept_tag_regression :
+  let dec := fun (t : tag) (x : string) => match t with TNull | TInt => String.eqb x "5" | _ => true end in
+  set_field_value dec None (Scalar TStr SPlain "x") (Scalar TNull SPlain "null") = Ok (Scalar TStr SPlain "x") /\
+  set_field_value dec None (Scalar TStr SPlain "x") (Scalar TInt SPlain "3") = Ok (Scalar TStr SPlain "x") /\
+  set_field_value dec None (Scalar TStr SPlain "5") (Scalar TInt SPlain "3") = Ok (Scalar TInt SPlain "5").
+Proof. exact replacement_kept_tag_regression. Qed.
+Print Assumptions C10_replacement_kept_tag_regression.
 
 (* The source value is copied once (repair of C10/replacement-source-aliased-by-target): the
    replacement value is never live ... *)
@@ -447,7 +477,7 @@ Print Assumptions C10_replacement_value_not_live.
    although a was rewritten first (it used to become q/x/x) *)
 Theorem C10_replacement_verbatim_regression :
   splice (mkFO "/" 1%Z false) "q" "x" = "q/x" /\
-  replacement_filter (parse_of []) node_value (fun _ => false) simple_lsel 2 [alias_repl] [alias_doc] =
+  replacement_filter (parse_of []) node_value (fun _ => false) (fun _ _ => true) simple_lsel 2 [alias_repl] [alias_doc] =
   Ok [Map [("kind", Scalar TStr SPlain "ConfigMap");
            ("metadata", Map [("name", Scalar TStr SPlain "cm")]);
            ("data", Map [("a", Scalar TStr SPlain "x/x"); ("b", Scalar TStr SPlain "q/x")])]].
@@ -622,6 +652,11 @@ Theorem Gen_C10_repairs :
   (gen_replacement_source_copied = true /\ gen_replacement_source_return_recognised = true).
 Proof. exact (conj gen_match_doseq_is_guarded gen_replacement_source_is_copied). Qed.
 Print Assumptions Gen_C10_repairs.
+
+(* setFieldValue probes the scalar it wrote with Decode and makes it a string when the kept tag cannot decode the text *)
+Theorem Gen_C10_replacement_retags : gen_replacement_retags_undecodable = true.
+Proof. exact gen_replacement_retags. Qed.
+Print Assumptions Gen_C10_replacement_retags.
 
 (* ImageTagTransformer.Transform still runs its two filters independently (the repair was declined) *)
 Theorem Gen_C10_image_transform :
